@@ -1,3 +1,4 @@
+import MLPE.Proofs.Safe
 import MLPE.Proofs.Retry
 
 /-!
@@ -235,3 +236,26 @@ example :
   decide
 
 end MLPE.Retry
+
+namespace MLPE.Eng
+open MLPE
+
+/-! ### Pipelines with switches: the attempts the engine actually makes, under every schedule -/
+
+/-- **C12 (switch pipelines)**: every observed body call is within the attempt budget, and is made only after every
+earlier attempt failed with a retryable exception; `get_default` is computed only when the policy ends in the default -/
+theorem C12_switch_attempts (P : Program) (val : Node → Option Val) (hsw : SwP P) (hsol : SolutionSw P val)
+    (s : St) (log : List Obs) (h : Exec P s log) :
+    (∀ n inv k kw, Obs.body n inv k kw ∈ log → 1 ≤ k ∧ k ≤ (P.cfg n).attemptsEff ∧
+      ∀ j, 1 ≤ j → j < k → Retry.decide (P.cfg n) j (P.body n kw 0 j) = .retry) ∧
+    (∀ n kw, Obs.dflt n kw ∈ log → kw = kwFrom P val n ∧ finalOf P n (kwFrom P val n) = some .default) := by
+  have hall := (safe_exec hsw hsol h).2
+  refine ⟨?_, ?_⟩
+  · intro n inv k kw hm
+    have a : Att P val n k kw inv := hall _ hm
+    exact ⟨a.kpos, a.kle, a.pre⟩
+  · intro n kw hm
+    have a := hall _ hm
+    exact ⟨a.1, a.2.2⟩
+
+end MLPE.Eng
